@@ -266,6 +266,20 @@ class Check(BaseCheck):
         if not ok:
             rec.violation('C13/formula:N-DATEVALUE-DAYS-and-comparisons-disagree-on-the-serial' + self.where(day), d_x=d, N=n, DATEVALUE=dv, DAYS_from_0=dz, equals_N=eq, le=le, ge=ge)
         rec.nt(('same-serial', d.isoformat()))
+        # ... and the difference of two date-times is the difference of those serials, on whichever sides of 1 March 1900 they lie
+        k = rnd.random()
+        day2 = (D(1900, 1, 1) + datetime.timedelta(days=rnd.choice([0, 1, 30, 58, 59, 60, 61, 100]))) if k < 0.5 else D.fromordinal(rnd.randrange(ORD0, ORDN))
+        d2 = day2 + datetime.timedelta(seconds=rnd.choice([0, 0, 43200, rnd.randrange(86400)]))
+        e.bind(d_y=d2)
+        n2 = e.val('N(d_y)')
+        if is_num(n2):
+            # (day arithmetic that lands before 1 March 1900 is in the library's own numbering there and is not judged)
+            for f, exp in (('d_x-d_y', n - n2), ('d_y-d_x', n2 - n)) + ((('(d_x+7)-d_x', 7), ('d_x-(d_x-3)', 3)) if day >= D(1900, 3, 5) else ()):
+                g = e.val(f)
+                rec.case()
+                if not (is_num(g) and abs(g - exp) < 1e-7):
+                    rec.violation('C13/formula:difference-of-two-dates-is-not-the-difference-of-their-serials' + self.where(min(day, day2)), formula=f, d_x=d, d_y=d2, N_x=n, N_y=n2, got=g, expected=exp)
+            rec.nt(('serial-difference', d.isoformat(), d2.isoformat()))
 
     def with_time_of_day(self, rec, e, rnd):
         """the same serial (now with its time-of-day fraction) seen through N, DATEVALUE, DAYS, - and the comparisons, for
